@@ -34,8 +34,8 @@ PROPS = {
         "assumptions": COMMON_ASSUMPTIONS + [
             "an injected error on Put/Write/Close/Rename is what 'a write, close or rename fails' means; buf has no retry on these paths",
         ],
-        "probes_expected": {"quick": ["put-err", "write-err", "short-write", "close-err", "rename-err", "device-full", "file-size-limit", "atomic-put-hit-file-size-limit", "more-than-a-thousand-objects"],
-                            "thorough": ["put-err", "write-err", "short-write", "close-err", "rename-err", "device-full", "file-size-limit", "atomic-put-hit-file-size-limit", "more-than-a-thousand-objects"]},
+        "probes_expected": {"quick": ["put-err", "write-err", "short-write", "close-err", "rename-err", "device-full", "file-size-limit", "atomic-put-hit-file-size-limit", "more-than-a-thousand-objects", "cache-healed-by-later-run"],
+                            "thorough": ["put-err", "write-err", "short-write", "close-err", "rename-err", "device-full", "file-size-limit", "atomic-put-hit-file-size-limit", "more-than-a-thousand-objects", "cache-healed-by-later-run"]},
     },
     "C14": {
         "engine": "storesim",
@@ -89,7 +89,7 @@ PROPS = {
             "only the history clause is decided; the 'exhaustively up to a length bound' clause is sampled (coverage of the short-string set is measured and reported, not assumed)",
             "normalpath_windows.go is not built on this platform",
         ],
-        "probes_expected": {"quick": ["hostile-archive", "hostile-plugin-response", "put-through-dir-link"], "thorough": ["hostile-archive", "hostile-plugin-response", "put-through-dir-link"]},
+        "probes_expected": {"quick": ["hostile-archive", "hostile-plugin-response", "put-through-dir-link", "cli-path-values", "git-input-with-links"], "thorough": ["hostile-archive", "hostile-plugin-response", "put-through-dir-link", "cli-path-values", "git-input-with-links"]},
     },
     "C09": {
         "engine": "cachesim",
@@ -143,8 +143,8 @@ PROPS = {
             "with parallelism below the number of compile tasks the order in which tasks obtain protocompile's internal semaphore is the Go runtime's choice (ambient executions); divergences found there replay statistically",
             "the reference compile uses the same protocompile source-info mode constant buf selects",
         ],
-        "probes_expected": {"quick": ["arrival-order-distinct", "build-failed-under-fault", "planted-error-located", "walk-permuted-nontrivially", "get-err", "cancel", "built-through-the-command-line", "cli-v1-workspace", "planted-error-located-through-the-command-line"],
-                            "thorough": ["arrival-order-distinct", "build-failed-under-fault", "planted-error-located", "walk-permuted-nontrivially", "get-err", "cancel", "built-through-the-command-line", "cli-v1-workspace", "planted-error-located-through-the-command-line"]},
+        "probes_expected": {"quick": ["arrival-order-distinct", "build-failed-under-fault", "planted-error-located", "walk-permuted-nontrivially", "get-err", "cancel", "built-through-the-command-line", "cli-v1-workspace", "planted-error-located-through-the-command-line", "cli-v1beta1-module-with-two-roots", "planted-error-format-json"],
+                            "thorough": ["arrival-order-distinct", "build-failed-under-fault", "planted-error-located", "walk-permuted-nontrivially", "get-err", "cancel", "built-through-the-command-line", "cli-v1-workspace", "planted-error-located-through-the-command-line", "cli-v1beta1-module-with-two-roots", "planted-error-format-json"]},
     },
     "C02": {
         "engine": "buildsim",
@@ -166,7 +166,7 @@ PROPS = {
             "outputs are assembled at API level the way bufctl.Controller does, because that is where a bucket can be substituted; the CLI's flag parsing is not exercised",
             "listing orders permuted: modules, --path / --exclude-path values, lint use / except ids and categories, breaking categories; plugin listing order belongs to C17",
         ],
-        "probes_expected": {"quick": ["arrival-order-distinct", "walk-permuted-nontrivially", "cli-image-input-with-paths", "cli-compressed-image-run-after-run", "filter-head-of-extension-chain"], "thorough": ["arrival-order-distinct", "walk-permuted-nontrivially", "cli-image-input-with-paths", "cli-compressed-image-run-after-run", "filter-head-of-extension-chain"]},
+        "probes_expected": {"quick": ["arrival-order-distinct", "walk-permuted-nontrivially", "cli-image-input-with-paths", "cli-compressed-image-run-after-run", "filter-head-of-extension-chain", "cli-two-broken-modules"], "thorough": ["arrival-order-distinct", "walk-permuted-nontrivially", "cli-image-input-with-paths", "cli-compressed-image-run-after-run", "filter-head-of-extension-chain", "cli-two-broken-modules"]},
     },
     "C08": {
         "engine": "digestsim",
@@ -195,8 +195,8 @@ PROPS = {
             "Digest() is not called from concurrent SCHEDULED tasks (parking inside a sync.OnceValues would block the others non-durably); concurrent callers run freely in a phase of their own",
             "b5 and the legacy b4 digest both have an independent reference; input-universal clauses are sampled as workload, the deciding dimensions are backend, enumeration order, read faults and stored corruption",
         ],
-        "probes_expected": {"quick": ["walk-permuted-nontrivially", "digest-failed-under-fault", "mutation-changed-digest", "mutation-left-digest", "cache-backend-verified", "dependency-change-propagated", "remote-leaf-importing-vendored-wkt"],
-                            "thorough": ["walk-permuted-nontrivially", "digest-failed-under-fault", "mutation-changed-digest", "mutation-left-digest", "cache-backend-verified", "dependency-change-propagated", "remote-leaf-importing-vendored-wkt"]},
+        "probes_expected": {"quick": ["walk-permuted-nontrivially", "digest-failed-under-fault", "mutation-changed-digest", "mutation-left-digest", "cache-backend-verified", "dependency-change-propagated", "remote-leaf-importing-vendored-wkt", "workspace-through-the-command-line"],
+                            "thorough": ["walk-permuted-nontrivially", "digest-failed-under-fault", "mutation-changed-digest", "mutation-left-digest", "cache-backend-verified", "dependency-change-propagated", "remote-leaf-importing-vendored-wkt", "workspace-through-the-command-line"]},
     },
     "C17": {
         "engine": "gensim",
@@ -223,8 +223,8 @@ PROPS = {
             "simulated plugins never produce the same name from two requests of ONE plugin: buf merges those in completion order (first wins, with a warning), which the property does not speak about",
             "whether a file keeps its final newline after an insertion point is applied is not checked",
         ],
-        "probes_expected": {"quick": ["plugin-completion-reordered", "insertion-point-applied", "generate-failed-as-expected", "plugin-with-type-filter"],
-                            "thorough": ["plugin-completion-reordered", "insertion-point-applied", "generate-failed-as-expected", "plugin-with-type-filter"]},
+        "probes_expected": {"quick": ["plugin-completion-reordered", "insertion-point-applied", "generate-failed-as-expected", "plugin-with-type-filter", "generated-from-an-image-file"],
+                            "thorough": ["plugin-completion-reordered", "insertion-point-applied", "generate-failed-as-expected", "plugin-with-type-filter", "generated-from-an-image-file"]},
     },
 }
 
@@ -243,3 +243,14 @@ PROPS["C01"]["rule"] += (" On-disk workspaces for the command-line builds are so
 PROPS["C08"]["rule"] += (" Directory names come in two Unicode normal forms; a composite scenario digests a local module that imports a remote leaf module importing a well-known type vendored by a third module.")
 PROPS["C14"]["rule"] += (" A third of the link-following disk roots have a top-level directory that is a link to a directory elsewhere; filter views include extension matchers with empty, multi-dot and dot-less arguments.")
 PROPS["C13"]["rule"] += (" A spelling of a prefix-mapped view's own root accepted by get/stat/put/delete counts as reaching outside the view; a walk whose prefix names a link to an outside directory must visit nothing.")
+
+# wave 11 additions
+PROPS["C08"]["rule"] += (" The v2 workspace of a run is also given to the real command, buf dep graph <input> --format json, as a directory, as tar / tar.gz / zip with #subdir or #strip_components, or as one of its .proto files; every printed digest is compared with the reference.")
+PROPS["C01"]["rule"] += (" Planted-error builds through the command use every diagnostic format (text, json, msvs, junit, github-actions); modules of v1 on-disk workspaces are sometimes v1beta1 modules with two roots and excludes below each.")
+PROPS["C02"]["rule"] += (" One run in six lints or builds a workspace in which TWO modules fail to compile, six times with 1-16 workers: the same text every time.")
+PROPS["C13"]["rule"] += (" The command-line step also gives hostile --path values to an archive input with #subdir, and sometimes a git input (created offline in the run directory) whose tree links to a file and a directory outside the repository: nothing from behind the links may be listed.")
+PROPS["C15"]["rule"] += (" Two more write paths: the cache of well-known types (a failed population followed by one more invocation, which must fail or leave exactly the embedded files) and bufmigrate.Migrator.Migrate (after a failed run on disk the new buf.yaml is absent, old or complete).")
+PROPS["C17"]["rule"] += (" Custom options are sometimes declared inside a message; the command-line path sometimes builds an image file (binpb, binpb.gz, json, txtpb) first and generates from it.")
+PROPS["C15"]["real"] += ["bufwktstore.GetBucket", "bufmigrate.Migrator.Migrate (incl. the bufcheck rule catalogue it consults)"]
+PROPS["C08"]["real"] += ["the buf dep graph command run in-process (controller, buffetch for directory / archive / proto-file inputs, bufworkspace)"]
+PROPS["C13"]["real"] += ["buf build / buf ls-files run in-process on directory, archive and git inputs (the git binary of the machine is executed for git inputs; skipped where there is none)"]
